@@ -9,7 +9,7 @@ import (
 
 // Property C12 (timed.PriorityQueue): pops in time order (ascending or descending).
 
-//verif:h prop=C12 p.pushes=3/3 cover=asc,desc,popuntil runs=1000000 timeout=200/1200
+//verif:h prop=C12 p.pushes=3/3 cover=asc,desc,popuntil runs=1000000 timeout=900/1200
 func H_C12_timedpq() {
 	asc := verifrt.Choose("ascending", 2) == 1
 	pq := NewPriorityQueue[int](asc)
